@@ -63,7 +63,7 @@ NormDoc(d) == [exists |-> d.exists, tests |-> d.tests, failures |-> d.failures, 
 Diverges(r) ==
    LET m == ModelOf(r) IN
    {<<f, what>> \in {<<g, w>> : g \in Reported(r), w \in {"crash", "document"}} :
-       LET pred == FeatureReport(m, Show(r), f, FALSE)
+       LET pred == FeatureReport(m, Show(r), f, RepairedCode)
            obs  == Obs(r, f) IN
        IF what = "crash" THEN pred.crashed # obs.crashed
        ELSE ~pred.crashed /\ ~obs.crashed /\ (obs.doc.wellformed \/ ~obs.doc.exists) /\ NormDoc(pred.doc) # NormDoc(obs.doc)}
